@@ -431,8 +431,17 @@ class Serializer:
             The metadata dict that can be passed to the API.
 
         Raises:
-            ValueError: if the
+            ValueError: if the keys and targets do not fit into the metadata, or if two
+                measurements share a key.
         """
+        meas_ops = list(meas_ops)
+        keys = [op['key'] for op in meas_ops]
+        if len(set(keys)) != len(keys):
+            # Results are read back into a dictionary from key to targets: one entry per key.
+            raise ValueError(
+                'A measurement key is used by more than one measurement, which is not supported '
+                f'by the IonQ API. Keys: {keys}'
+            )
         key_values = [f'{op["key"]}{chr(31)}{op["targets"]}' for op in meas_ops]
         full_str = chr(30).join(key_values)
         # IonQ maximum value size for metadata.
